@@ -467,9 +467,13 @@ def run(ctx):
     for rep in re.split(r"={18}\n", p.stderr):
         if "DATA RACE" not in rep:
             continue
-        # the two accesses: the innermost frame of each stack (first line after "... by goroutine ...:")
-        tops = re.findall(r"(?:Write|Read|Previous write|Previous read) at [^\n]*\n\s+(\S+)", rep)
-        if len(tops) >= 2 and all(codec.search(t + "(") for t in tops[:2]):
+        # the two accesses: the innermost frame of each stack that belongs to the code under test
+        tops = []
+        for blk in re.split(r"\n\s*\n", rep):
+            if re.match(r"\s*(WARNING: DATA RACE\n)?\s*(Write|Read|Previous write|Previous read) at ", blk):
+                fr = [l.strip() for l in blk.splitlines() if "github.com/mk6i/mkdb/" in l and not l.strip().startswith("/")]
+                tops.append(fr[0] if fr else "?")
+        if len(tops) >= 2 and all(codec.search(t) for t in tops[:2]):
             n_codec += 1
             if n_codec == 1:
                 vlib.report_violation(ctx, dict(kind="codec-data-race", report=rep[:3000], detail=[
